@@ -153,3 +153,43 @@ def dynamic_feature_census(ix: Index) -> List[Tuple[str, int, str]]:
             elif isinstance(n, ast.Attribute) and n.attr == "__dict__":
                 out.append((mi.path, n.lineno, unparse(n)[:80]))
     return sorted(out)
+
+
+def only_called_from(ix: Index, fn: Optional[FuncInfo], allowed: Iterable[str], depth: int = 3) -> Optional[List[str]]:
+    """Extract-method tolerance for who-may-write / who-may-call tables.
+
+    If `fn` is a helper whose *every* call site lies in a function listed in `allowed` (or in another helper for which
+    the same holds, up to `depth`), return the chain of callers that justifies it; otherwise None.  A helper with no
+    call site at all is not justified (dead writers are still writers).
+    """
+    allowed = set(allowed)
+    if fn is None or isinstance(fn.node, ast.Lambda):
+        return None
+    if fn.short in allowed:
+        return [fn.short]
+    if depth <= 0 or fn.name.startswith("__"):
+        return None
+    sites = [cs for cs in call_sites(ix, [fn.name]) if cs.fn is not None and cs.fn is not fn]
+    if not sites:
+        return None
+    # only call sites that can denote this function: same class hierarchy via self/typed receiver, or a module function
+    relevant = []
+    for cs in sites:
+        f = cs.call.func
+        if fn.cls is None:
+            if isinstance(f, ast.Name):
+                relevant.append(cs)
+            continue
+        if isinstance(f, ast.Attribute):
+            rc = recv_class(ix, cs.fn, f.value)
+            if rc is None or ix.is_subclass(rc, fn.cls) or ix.is_subclass(fn.cls, rc):
+                relevant.append(cs)
+    if not relevant:
+        return None
+    chain: List[str] = []
+    for cs in relevant:
+        sub = only_called_from(ix, cs.fn if cs.fn.parent is None else cs.fn, allowed, depth - 1)
+        if sub is None:
+            return None
+        chain.extend(sub)
+    return sorted(set(chain))
